@@ -3028,3 +3028,111 @@ func ruleTailIndexGuarded(c *eng.Ctx) {
 		})
 	}
 }
+
+// ---------------------------------------------------------------------------------------------------------------
+// guards established by an earlier stage of a pipeline
+
+// okExitsGuarded: every way h returns without an error (last result a nil error; for a function without an error
+// result: every return) crossed an edge satisfying pred inside h.
+func okExitsGuarded(h *ssa.Function, pred func(eng.Fact) bool) bool {
+	if h == nil || h.Blocks == nil {
+		return false
+	}
+	n := 0
+	for _, e := range eng.Exits(h) {
+		if k := len(e.Results); k > 0 {
+			if _, isErr := e.Results[k-1].Type().Underlying().(*types.Interface); isErr && !eng.IsNilConst(e.Results[k-1]) {
+				maybeNil := false
+				switch e.Results[k-1].(type) {
+				case *ssa.Extract, *ssa.Phi, *ssa.Parameter:
+					maybeNil = true // an error passed on from a callee: nil unless it was tested
+				}
+				if !maybeNil {
+					continue // a freshly made error (fmt.Errorf, a sentinel): an error exit
+				}
+				if _, isC := e.Results[k-1].(*ssa.Const); !isC {
+					// a non-constant error: returned as err after `if err != nil`, or possibly nil — treat a value
+					// that is tested non-nil on the way as an error exit
+					errv := e.Results[k-1]
+					if eng.ExitGuarded(h, e, func(f eng.Fact) bool {
+						op, x, y, ok := f.Cmp()
+						return ok && op == token.NEQ && ((x == errv && eng.IsNilConst(y)) || (y == errv && eng.IsNilConst(x)))
+					}) {
+						continue
+					}
+				} else {
+					continue
+				}
+			}
+		}
+		n++
+		if !eng.ExitGuarded(h, e, pred) {
+			return false
+		}
+	}
+	return n > 0
+}
+
+// pipelineGuarded: block b of fn is reached only after a fact satisfying pred — established in fn itself, or by an
+// earlier stage: a call in fn to a function of the package whose error result is tested nil on the way to b and
+// which returns without error only where pred held inside it.
+func pipelineGuarded(fn *ssa.Function, b *ssa.BasicBlock, pred func(eng.Fact) bool) bool {
+	if eng.GuardedBy(fn, b, pred) {
+		return true
+	}
+	found := false
+	eng.Instrs(fn, false, func(in ssa.Instruction) {
+		call, ok := in.(*ssa.Call)
+		if !ok || found {
+			return
+		}
+		h := eng.StaticCallee(call)
+		if h == nil || h.Pkg != fn.Pkg || h == fn || h.Blocks == nil {
+			return
+		}
+		var errv ssa.Value
+		if refs := call.Referrers(); refs != nil {
+			for _, r := range *refs {
+				if ex, ok := r.(*ssa.Extract); ok {
+					if _, isErr := ex.Type().Underlying().(*types.Interface); isErr && ex.Type().String() == "error" {
+						errv = ex
+					}
+				}
+			}
+		}
+		if _, isErr := call.Type().Underlying().(*types.Interface); isErr && call.Type().String() == "error" {
+			errv = call
+		}
+		if errv == nil || !eng.GuardedBy(fn, b, errIsNilFact(errv)) {
+			return
+		}
+		if okExitsGuarded(h, pred) {
+			found = true
+		}
+	})
+	return found
+}
+
+// stageGuarded: an instruction in stage function host (fn itself, or a function of fn's package that fn calls from one
+// site) is reached only after pred: inside host, or on the way to host's call site in fn (pipeline stages included).
+func stageGuarded(fn, host *ssa.Function, at *ssa.BasicBlock, pred func(eng.Fact) bool) bool {
+	if host == fn {
+		return pipelineGuarded(fn, at, pred)
+	}
+	if pipelineGuarded(host, at, pred) {
+		return true
+	}
+	var sites []ssa.CallInstruction
+	for _, ci := range eng.Calls(fn, true, func(_ string, ci ssa.CallInstruction) bool { return eng.StaticCallee(ci) == host }) {
+		sites = append(sites, ci)
+	}
+	if len(sites) == 0 {
+		return false
+	}
+	for _, s := range sites {
+		if s.Parent() != fn || !pipelineGuarded(fn, s.Block(), pred) {
+			return false
+		}
+	}
+	return true
+}
